@@ -130,7 +130,8 @@ def main(argv):
         tgt = case if isinstance(case, dict) else None
         for part in (sf.split(".") if sf else []):
             tgt = tgt.get(part) if isinstance(tgt, dict) else None
-        if sf and i % 7 == 3 and tgt is not None:
+        every = getattr(mod, "SHUFFLE_EVERY", 7)
+        if sf and i % every == every // 2 and tgt is not None:
             # every seventh case hands its events to add_absolute_message in a shuffled order (same piece, other insertion order)
             for sp in (tgt if isinstance(tgt, list) else [tgt]):
                 if isinstance(sp, dict) and "notes" in sp and not sp.get("hanging"):
